@@ -58,7 +58,7 @@ def setup_worker():
 def plan(tier):
     if tier == "thorough":
         return {"runs": 20000, "budget_s": 1500, "chunk": 20, "recheck": 8, "shrink_s": 150}
-    return {"runs": 1500, "budget_s": 200, "chunk": 10, "recheck": 6, "shrink_s": 60}
+    return {"runs": 4000, "budget_s": 200, "chunk": 10, "recheck": 6, "shrink_s": 60}
 
 
 # ------------------------------------------------------------------ generator
